@@ -285,7 +285,7 @@ func c08Roundtrip(conv *interpreter.Interpreter, t tygen.Ty) (sig, detail string
 
 func runC08(env *mc.Env) {
 	depth := c08Depth(env)
-	u := tygen.Universe(depth)
+	u := tygen.UniversePlus(depth)
 	n := len(u)
 	words := (n + 63) / 64
 	rows := make([][]uint64, n)
@@ -483,7 +483,7 @@ func c08ScriptRow(l *rt.Ledger, a tygen.Ty, ts []tygen.Ty, vm bool) ([]bool, str
 }
 
 func c08Find(depth int, name string) (tygen.Ty, bool) {
-	for _, t := range tygen.Universe(depth) {
+	for _, t := range tygen.UniversePlus(depth) {
 		if t.Name == name {
 			return t, true
 		}
@@ -538,7 +538,7 @@ func replayC08(env *mc.Env, raw json.RawMessage) (bool, string) {
 func init() {
 	mc.Register(&mc.Check{
 		ID: "C08",
-		Rule: "every ordered pair of the type universe T(1) (quick) / T(2) (thorough) built by verif/gen/tygen (all denotable primitive types, " +
+		Rule: "every ordered pair of the type universe T(1) (quick) / T(2) (thorough) built by verif/gen/tygen, plus tygen.Extras (doubly/triply nested optionals of 8 atoms; references with 13 authorizations incl. partially overlapping sets, bare and nested in optional/array/dictionary/capability) (all denotable primitive types, " +
 			"the nominal types of a checked prelude contract, closed under optional, arrays, dictionary, reference x 6 authorizations, intersection, " +
 			"capability, function, inclusive range; each member's source spelling confirmed by the real checker) is given to the six subtype " +
 			"implementations; transitivity is decided for every triple on the boolean matrix; non-trivial = distinct pair in proper subtype " +
